@@ -4,6 +4,7 @@ import Hgxv.Proofs.C09Witness
 import Hgxv.Proofs.C09Relabel
 import Hgxv.Proofs.C09Multi
 import Hgxv.Proofs.C09Psd
+import Hgxv.Proofs.C09Ext
 import Mathlib.Algebra.Field.Defs
 import Mathlib.Data.ZMod.Basic
 /-! # C09 — matrix / tensor representations equal their definitions under the node mapping
@@ -1044,3 +1045,189 @@ example : ∃ A : Nat → Nat → Int, A 30 20 = 2 ∧ A 30 7 = 1 ∧ A 30 30 = 
   refine ⟨fun a b => if a = b then 0 else gram 2 exW a b, by decide, by decide, by decide,
     adjByOrder_entry_label 2 exN exW (by decide) (by decide) 30 20 (by decide) (by decide), ?_⟩
   exact (adj_row_sum_label 2 exN exW (by decide) (by decide) (by decide) 30 (by decide)).trans (by decide)
+
+/-! ## Second extension round: annealed matrices and `adjacency_factor` -/
+
+/-- `annealed_adjacency_matrices_all_orders`, one order: the routine raises exactly when there is no time stamp or two
+snapshots have different numbers of nodes (scipy: inconsistent shapes); otherwise every entry of the returned matrix is
+the AVERAGE over the time stamps of that entry of the per-time order-`d` adjacency matrices (sum divided by the number of times). -/
+theorem C09_annealed_by_order {R : Type} [Field R] [DecidableEq R] (d : Nat) (recs : List (Rec R)) :
+    (annealedOne d recs = none ↔ times recs = [] ∨
+        ¬ (∀ t ∈ times recs, ∀ t' ∈ times recs,
+            (temporalAdjByOrder d recs t).length = (temporalAdjByOrder d recs t').length))
+    ∧ ∀ M, annealedOne d recs = some M →
+        ∀ i j (f : Nat → R), (∀ t ∈ times recs, entry (temporalAdjByOrder d recs t) i j = some (f t)) →
+          entry M i j = some (((times recs).map f).sum / (((times recs).length : Nat) : R)) := by
+  have hs : sameLen ((times recs).map (temporalAdjByOrder d recs)) = true
+      ↔ ∀ t ∈ times recs, ∀ t' ∈ times recs,
+          (temporalAdjByOrder d recs t).length = (temporalAdjByOrder d recs t').length := by
+    rw [sameLen_spec]
+    simp only [List.forall_mem_map]
+  constructor
+  · unfold annealedOne
+    simp only []
+    by_cases h : sameLen ((times recs).map (temporalAdjByOrder d recs)) = true
+    · rw [if_pos h, Option.map_eq_none_iff, matSum_eq_none, List.map_eq_nil_iff]
+      constructor
+      · intro e; exact Or.inl e
+      · rintro (e | e)
+        · exact e
+        · exact absurd (hs.1 h) e
+    · rw [if_neg h]
+      simp only [true_iff]
+      exact Or.inr (fun e => h (hs.2 e))
+  · intro M hM i j f hf
+    unfold annealedOne at hM
+    simp only [] at hM
+    split at hM
+    · obtain ⟨S, hS, rfl⟩ := Option.map_eq_some_iff.1 hM
+      rw [entry_divScalar, entry_matSum (temporalAdjByOrder d recs) f i j (times recs) hf S hS, List.length_map]
+      rfl
+    · cases hM
+
+/-- `annealed_adjacency_matrices_all_orders`: raises without records; when it returns, the keys are the orders
+`1..max_order` and the value at `d` is the average matrix of `C09_annealed_by_order`. -/
+theorem C09_annealed_all_orders {R : Type} [Field R] [DecidableEq R] (recs : List (Rec R)) :
+    (recs = [] → annealedAllOrders recs = none)
+    ∧ ∀ l, annealedAllOrders recs = some l →
+        ∃ m, temporalMaxOrder recs = some m ∧ l.map (·.1) = (List.range m).map (· + 1)
+          ∧ ∀ p ∈ l, annealedOne p.1 recs = some p.2 := by
+  constructor
+  · intro h
+    subst h
+    rfl
+  · intro l hl
+    unfold annealedAllOrders at hl
+    cases hm : temporalMaxOrder recs with
+    | none => rw [hm] at hl; cases hl
+    | some m =>
+      rw [hm] at hl
+      simp only [Option.bind_some] at hl
+      obtain ⟨h1, h2⟩ := allSome_spec _ l hl
+      refine ⟨m, rfl, ?_, ?_⟩
+      · rw [h1]
+        simp [List.map_map]
+      · intro p hp
+        have := h2 p hp
+        obtain ⟨d, _, hd⟩ := List.mem_map.1 this
+        simp only [Prod.mk.injEq] at hd
+        rw [← hd.1, hd.2]
+
+/-- `x ** t` of the model is the ring power -/
+theorem C09_powN_eq_pow {R : Type} [CommRing R] [DecidableEq R] (x : R) (t : Nat) : powN x t = x ^ t := by
+  induction t with
+  | zero => simp [powN]
+  | succ n ih => simp [powN, ih, pow_succ]
+
+/-- `adjacency_factor(hypergraph, t)`: one entry per node, in `get_nodes()` order; the value of node `a` is the sum over the
+OTHER nodes `b` that share at least one hyperedge with `a` of `c(a,b) ^ t`, `c(a,b)` the number of hyperedges containing both
+(`t = 0`: the number of neighbours; `t = 1`: the row sum of the adjacency matrix). -/
+theorem C09_adjacency_factor {R : Type} [CommRing R] [DecidableEq R] (t : Nat) (nodes : List Nat) (edges : List Edge)
+    (hN : nodes.Nodup) (hE : ∀ e ∈ edges, ∀ x ∈ e, x ∈ nodes) :
+    (adjFactor t nodes edges : List (Nat × R)) = nodes.map fun a =>
+      (a, ((nodes.filter fun b => b != a).map fun b =>
+        if ((edges.countP fun e => decide (a ∈ e) && decide (b ∈ e) : Nat) : R) = 0 then 0
+        else ((edges.countP fun e => decide (a ∈ e) && decide (b ∈ e) : Nat) : R) ^ t).sum) := by
+  unfold adjFactor
+  simp only []
+  apply List.map_congr_left
+  intro a ha
+  congr 1
+  apply congrArg List.sum
+  apply List.map_congr_left
+  intro b hb
+  obtain ⟨hb, hne⟩ := List.mem_filter.1 hb
+  have hne' : b ≠ a := by simpa using hne
+  have ha' := (mem_classes a nodes).2 ha
+  have hb' := (mem_classes b nodes).2 hb
+  have hij : ¬ encode (classes nodes) a = encode (classes nodes) b :=
+    fun e => hne' ((encode_inj_mem _ a b ha' hb').1 e).symm
+  have he := C09_adjacency (R := R) nodes edges hN hE _ _ (encode_lt _ a ha') (encode_lt _ b hb')
+  rw [if_neg hij] at he
+  simp only [getElem_encode _ a ha', getElem_encode _ b hb'] at he
+  rw [entryD_of_entry _ _ _ _ he, C09_powN_eq_pow]
+
+example : annealedOne 1 ([] : List (Rec Rat)) = none := (C09_annealed_by_order (R := Rat) 1 []).1.2 (Or.inl rfl)
+example : (adjFactor 2 [5, 1, 9, 4] [[1, 5], [5, 1, 9]] : List (Nat × Int)) = [(5, 5), (1, 5), (9, 2), (4, 0)] := by decide
+example : (adjFactor 0 [5, 1, 9, 4] [[1, 5], [5, 1, 9]] : List (Nat × Int)) = [(5, 2), (1, 2), (9, 2), (4, 0)] :=
+  (C09_adjacency_factor 0 [5, 1, 9, 4] [[1, 5], [5, 1, 9]] (by decide) (by decide)).trans (by decide)
+
+/-- Positive semidefiniteness of the multi-order Laplacian (corollary of `C09_laplacian_psd`): for an unweighted hypergraph,
+NON-NEGATIVE sigmas and every choice of the flags, whenever `compute_multiorder_laplacian` returns a matrix `M`, its entries under
+the node mapping are `L a b = Σ_d c_d · σ_d · s_d · L_d(a, b)` (`c_d = 1` or `N / Σ_x degree_d(x)`, `s_d = 1` or `(d-1)!`) and
+`xᵀ M x ≥ 0` for every vector `x` - a non-negative combination of positive semidefinite matrices. -/
+theorem C09_multiorder_psd {R : Type} [Field R] [LinearOrder R] [IsStrictOrderedRing R] (sigmas : List R) (ow dw : Bool)
+    (nodes : List Nat) (es : List (Edge × R)) (hN : nodes.Nodup) (hE : ∀ e ∈ es, ∀ x ∈ e.1, x ∈ nodes)
+    (hD : ∀ e ∈ es, e.1.Nodup) (hW : ∀ e ∈ es, e.2 = 1) (hσ : ∀ σ ∈ sigmas, 0 ≤ σ)
+    (M : List (List R)) (hM : multiorderLaplacian sigmas ow dw nodes es = some (MultiLap.mat M)) :
+    ∃ L : Nat → Nat → R,
+      (∀ a ∈ nodes, ∀ b ∈ nodes, entry M (encode (classes nodes) a) (encode (classes nodes) b) = some (L a b))
+      ∧ ∀ x : Nat → R,
+          0 ≤ ((classes nodes).map fun a => ((classes nodes).map fun b => x a * L a b * x b).sum).sum := by
+  obtain ⟨ds, hds⟩ : ∃ ds, orders es = some ds := by
+    cases h : orders es with
+    | none => unfold multiorderLaplacian at hM; rw [h] at hM; cases hM
+    | some ds => exact ⟨ds, rfl⟩
+  have hspec := (C09_multiorder_laplacian sigmas ow dw nodes es hN hE).2 ds hds
+  have hnot : ¬ (dw = true ∧ ∃ p ∈ ds.zip sigmas, degreeTotal p.1 nodes es = 0) := by
+    intro hg
+    rw [hspec.1 hg] at hM
+    cases hM
+  have hne : ds.zip sigmas ≠ [] := by
+    intro hnil
+    rw [(hspec.2 hnot).1 hnil] at hM
+    cases hM
+  obtain ⟨M', hM', hent⟩ := (hspec.2 hnot).2 hne
+  rw [hM] at hM'
+  cases hM'
+  let k : Nat × R → R := fun p =>
+    (if dw then invAvgDegree p.1 nodes es else 1) * (p.2 * (if ow then ((scaleFactor p.1 : Nat) : R) else 1))
+  refine ⟨fun a b => ((ds.zip sigmas).map fun p => k p * lapL p.1 es a b).sum, ?_, ?_⟩
+  · intro a ha b hb
+    have ha' := (mem_classes a nodes).2 ha
+    have hb' := (mem_classes b nodes).2 hb
+    obtain ⟨f, hf, hMe⟩ := hent _ _ (encode_lt _ a ha') (encode_lt _ b hb')
+    rw [hMe]
+    congr 1
+    apply congrArg List.sum
+    apply List.map_congr_left
+    intro p _
+    have h1 := hf p.1
+    have h2 := lap_entry_label p.1 nodes es hN hE a b ha hb
+    cases ow
+    · simp only [lapFlag, Bool.false_eq_true, if_false] at h1
+      rw [h2] at h1
+      have := Option.some.inj h1
+      simp only [k, Bool.false_eq_true, if_false, ← this]
+      ring
+    · simp only [lapFlag, if_true, laplacianScaled, entry_smul, h2, Option.map_some] at h1
+      have := Option.some.inj h1
+      simp only [k, if_true, ← this]
+      ring
+  · intro x
+    rw [quad_sum_swap]
+    apply sum_nonneg'
+    intro p hp
+    apply mul_nonneg
+    · apply mul_nonneg
+      · cases dw
+        · simp
+        · simp only [if_true, invAvgDegree]
+          exact div_nonneg (Nat.cast_nonneg _) (Nat.cast_nonneg _)
+      · apply mul_nonneg (hσ p.2 (List.of_mem_zip hp).2)
+        cases ow
+        · simp
+        · simp only [if_true]
+          exact Nat.cast_nonneg _
+    · exact lap_quadratic_form_nonneg p.1 nodes es hE hD hW x
+
+example : ∃ M, multiorderLaplacian [2, 3] false false exN exWq = some (MultiLap.mat M)
+    ∧ ∃ L : Nat → Nat → Rat, ∀ x : Nat → Rat,
+        0 ≤ ((classes exN).map fun a => ((classes exN).map fun b => x a * L a b * x b).sum).sum := by
+  obtain ⟨M, h, _⟩ := (((C09_multiorder_laplacian [2, 3] false false exN exWq (by decide) (by decide)).2 [1, 2] (by decide)).2
+    (by simp)).2 (by simp)
+  obtain ⟨L, _, hL⟩ := C09_multiorder_psd [2, 3] false false exN exWq (by decide) (by decide) (by decide) (by simp)
+    (by intro σ hσ; rcases List.mem_cons.1 hσ with rfl | hσ; · norm_num
+        · rcases List.mem_cons.1 hσ with rfl | hσ; · norm_num
+          · cases hσ) M h
+  exact ⟨M, h, L, hL⟩
